@@ -123,7 +123,8 @@ def check_text(v, impl, fmt, text, cen, fault):
 
 
 def run_case(case):
-    dupnames = len(case) > 5 and case[5]
+    dupnames = len(case) > 5 and case[5] is True
+    first = len(case) > 5 and case[5] == "collector-first"
     prog, cfg, faults, cleanups, hooks = case[:5]
     cfgd = dict(runcases.CFGS[cfg] if isinstance(cfg, str) else cfg)
     holder = {}
@@ -143,8 +144,16 @@ def run_case(case):
                 r.stream = io.StringIO()
                 r.show_duration = False
                 reps.append((impl, fmt if fmt != "userdata" else ud_fmt, r))
+        if first:
+            reps = []       # no reporter: the collector below is the first reader of the model after the run
         holder["reps"] = reps
         return [r for _, _, r in reps]
+
+    def walk_first(feats_, runner_, config_):
+        from behave.summary import SummaryCollector
+        c0 = SummaryCollector()
+        c0.visit_features(feats_) if hasattr(c0, "visit_features") else [c0.visit_feature(f) for f in feats_]
+        return c0
 
     texts = None
     if dupnames:
@@ -157,7 +166,7 @@ def run_case(case):
             t = _re.sub(r"Examples: \S+", "Examples: E", t)
             texts.append(t)
     obs = harness.run_case(prog, cfgd, faults=faults, cleanups=cleanups, hooks=hooks, reporters=reporters,
-                           keep_model=True, texts=texts)
+                           keep_model=True, texts=texts, after_run=walk_first if first else None)
     v = []
     if obs["escaped"]:
         v.append(({"subcheck": "run", "clause": "exception-escapes-run", "exc": obs["escaped"]},
@@ -170,8 +179,11 @@ def run_case(case):
         v.append(({"subcheck": "format", "clause": "userdata-format-ignored", "impl": holder["ud_bad"][0]},
                   "userdata output_format=%s gives %s" % (ud_fmt, holder["ud_bad"][1])))
     from behave.summary import SummaryCollector
-    coll = SummaryCollector()
-    coll.visit_features(feats) if hasattr(coll, "visit_features") else [coll.visit_feature(f) for f in feats]
+    if first:
+        coll = obs["after_run"]
+    else:
+        coll = SummaryCollector()
+        coll.visit_features(feats) if hasattr(coll, "visit_features") else [coll.visit_feature(f) for f in feats]
     tables = {"walked-collector": {"feature": coll.summary_counts.features, "rule": coll.summary_counts.rules,
                                    "scenario": coll.summary_counts.scenarios, "step": coll.summary_counts.steps}}
     lists = {"walked-collector": ([s.name for s in coll.failed_scenarios], [s.name for s in coll.errored_scenarios])}
@@ -277,10 +289,34 @@ def dupname_cases(tier):
                         yield ((pa[0], pb[0]), cfg, None, None, False, True)
 
 
+def collector_first_cases(tier):
+    """no reporter registered: a SummaryCollector is the FIRST reader of the model after the run (outlines that the
+    run never reached - after --stop, an abort, a hook error on their container, de-selection - are still unexpanded)"""
+    quick = tier == "quick"
+    seen = set()
+    for case in runcases.step_cases(tier):
+        prog = case[0]
+        if "'O'" not in repr(prog) or P.size(prog[0]) > (3 if quick else 5):
+            continue
+        if quick and "stop" not in str(case[1]):
+            continue        # quick: the configurations that leave a never-started remainder
+        for pr in (prog, (prog[1], prog[0])):
+            key = (pr, case[1])
+            if key not in seen:
+                seen.add(key)
+                yield (pr,) + tuple(case[1:5]) + ("collector-first",)
+    for case in runcases.fault_cases(tier):
+        if "'O'" not in repr(case[0]) or (quick and P.size(case[0][0]) > 2):
+            continue
+        yield tuple(case[:5]) + ("collector-first",)
+
+
 def run(ctx):
     ctx.bounds = {"runs": "C01 enumeration restricted to shapes with " + ("<=3 step positions (faults: <=2)" if ctx.quick else "<=5 step positions (all fault cases)"),
                   "implementations": 3, "formats": 5}
     ctx.sweep(run_case, cases(ctx.tier), chunk=32, name="runs x (reporter + walked collector) x 5 formats")
     ctx.sweep(run_case, empty_container_cases(ctx.tier), chunk=32, name="childless containers with siblings")
     ctx.sweep(run_case, dupname_cases(ctx.tier), chunk=32, name="identical titles on failing/erroring scenarios")
+    ctx.sweep(run_case, collector_first_cases(ctx.tier), chunk=32,
+              name="no reporter: a collector is the first reader of the model after the run")
     ctx.guard(len(ctx.outcomes) > 20, "at least 20 distinct status mixes")
